@@ -147,7 +147,7 @@ HCIcszip_decode(compinfo_t *info, int32 length, uint8 *buf)
     if (szip_info->szip_state == SZIP_INIT) {
         /*  Load from disk, decode the data */
 
-        if ((access_rec = HAatom_object(info->aid)) == NULL) /* get the access_rec pointer */
+        if ((access_rec = HIaid2rec(info->aid)) == NULL) /* get the access_rec pointer */
             HRETURN_ERROR(DFE_ARGS, FAIL);
 
         /* Discover how much data must be read */
@@ -431,7 +431,7 @@ HCIcszip_term(compinfo_t *info)
     szip_info->szip_state = SZIP_TERM;
 
     current_size = 0;
-    if ((access_rec = HAatom_object(info->aid)) == NULL) /* get the access_rec pointer */
+    if ((access_rec = HIaid2rec(info->aid)) == NULL) /* get the access_rec pointer */
         HRETURN_ERROR(DFE_INTERNAL, FAIL);
 
     /* Discover how much data must be read */
